@@ -27,6 +27,7 @@ class Balancer:
         self._ast_hash_map = {}
         self._lower_bounds = {}
         self._upper_bounds = {}
+        self._wrapped_bounds = set()
 
         self.sat = True
         try:
@@ -251,6 +252,9 @@ class Balancer:
 
             log.debug("Processing truism %s", truism)
             balanced_truism = self._balance(truism)
+            if balanced_truism is None:
+                # the balancing step has recorded all there is to know
+                continue
             log.debug("... handling")
             self._handle(balanced_truism)
 
@@ -369,6 +373,8 @@ class Balancer:
                 match inner_aligned.args[0].op:
                     case "Reverse":
                         balanced = Balancer._balance_reverse(inner_aligned)
+                    case "__add__" | "__sub__" if inner_aligned.op in self.comparison_info:
+                        balanced = self._balance_linear(inner_aligned)
                     case "__add__":
                         balanced = Balancer._balance_add(inner_aligned)
                     case "__sub__":
@@ -391,7 +397,7 @@ class Balancer:
                         log.debug("Balance handler %s not implemented.", truism.args[0].op)
                         return truism
 
-                if balanced is inner_aligned:
+                if balanced is inner_aligned or balanced is None:
                     return balanced
                 truism = balanced
                 continue
@@ -404,6 +410,83 @@ class Balancer:
         if truism.op in ["__eq__", "__ne__"]:
             return Bool(truism.op, (truism.args[0].args[0], truism.args[1].reversed))
         return truism
+
+    def _balance_linear(self, truism):
+        """
+        An ordered comparison of `inner + c` (or `inner - c`, `c - inner`) with a constant `k`. Moving the constant
+        to the other side is not an equivalence in modular arithmetic (x + 10 <= 20 holds for x in [-10, 10], not
+        for x <= 10). The values of the left-hand side that satisfy the comparison form one interval; the values of
+        `inner` are that interval shifted, which may wrap around.
+        """
+        lhs, rhs = truism.args
+        size = len(lhs)
+        mask = 2**size - 1
+
+        if Balancer._cardinality(rhs) != 1:
+            return truism
+        k = claripy.backends.vsa.eval(rhs, 1)[0] & mask
+
+        def is_constant(a):
+            return a.op == "BVV" and a.args[0] is not None
+
+        # (a union or a widening of constants is not symbolic, but not a constant either)
+        symbolic = [a for a in lhs.args if not is_constant(a)]
+        concrete = [a.args[0] for a in lhs.args if is_constant(a)]
+        if not symbolic or not concrete:
+            return truism
+
+        negated = False
+        if lhs.op == "__add__":
+            inner = symbolic[0] if len(symbolic) == 1 else BV("__add__", tuple(symbolic), length=size)
+            offset = sum(concrete) & mask
+        elif not is_constant(lhs.args[0]) and len(symbolic) == 1:
+            # inner - c1 - c2 ...
+            inner = symbolic[0]
+            offset = -sum(concrete) & mask
+        elif is_constant(lhs.args[0]) and len(symbolic) == 1:
+            # c1 - c2 ... - inner
+            inner = symbolic[0]
+            negated = True
+            offset = (2 * concrete[0] - sum(concrete)) & mask
+        else:
+            return truism
+
+        # the interval of values of the left-hand side that satisfy the comparison
+        is_lt, is_equal, is_unsigned = self.comparison_info[truism.op]
+        smallest = 0 if is_unsigned else 2 ** (size - 1)
+        greatest = mask if is_unsigned else 2 ** (size - 1) - 1
+        if is_lt:
+            if not is_equal and k == smallest:
+                raise ClaripyBalancerUnsatError
+            low, high = smallest, (k if is_equal else k - 1) & mask
+        else:
+            if not is_equal and k == greatest:
+                raise ClaripyBalancerUnsatError
+            low, high = (k if is_equal else k + 1) & mask, greatest
+        if (high - low) & mask == mask:
+            # always true: nothing is known about `inner` (it is still reported, with a bound that is none)
+            self._add_lower_bound(inner, 0)
+            return None
+
+        if negated:
+            low, high = (offset - high) & mask, (offset - low) & mask
+        else:
+            low, high = (low - offset) & mask, (high - offset) & mask
+
+        if low <= high:
+            # no wrap-around: both bounds hold on their own and can be balanced further
+            if low > 0:
+                self._truisms.append(claripy.UGE(inner, claripy.BVV(low, size)))
+            if high < mask:
+                self._truisms.append(claripy.ULE(inner, claripy.BVV(high, size)))
+        elif inner.hash() not in self._wrapped_bounds:
+            # `inner` is either at least `low` or at most `high`: neither holds on its own. The pair of bounds,
+            # lower above upper, stands for the wrapped-around interval. (A second wrapped interval for the same
+            # expression cannot be intersected with the first bound by bound; it is not needed for soundness.)
+            self._wrapped_bounds.add(inner.hash())
+            self._add_lower_bound(inner, low)
+            self._add_upper_bound(inner, high)
+        return None
 
     @staticmethod
     def _balance_add(truism):
